@@ -36,6 +36,8 @@ func checkC06(c *Ctx) {
 	c.Rule("R6.3", "CheckedEntry.Write: all cores, then the hook, then recycle", 3)
 	c.Rule("R6.9", "Check discipline of every zapcore.Core implementation: a core that does not accept an entry hands back the checked entry it was given (an earlier branch's acceptance - and with it the write before the terminal hook - survives)", 8)
 	c.As(map[string]string{"R5.1": "R6.9"}, func() { c5CheckDiscipline(c) })
+	c.Rule("R6.10", "a checked entry created by AddCore / After for an entry no core had accepted yet carries that entry (the default Panic action panics with its message, hooks receive it)", 2)
+	c6FreshEntryCarriesEntry(c, "R6.10")
 	c.Rule("R6.4", "ioCore.Write syncs after the write for DPanic/Panic/Fatal; BufferedWriteSyncer.Sync always syncs the sink", 4)
 	c.Rule("R6.5", "default actions: panic(message) / exit.With(1) -> os.Exit / Goexit; exit function only written by the stub helpers, which non-test code never calls", 5)
 	c.Rule("R6.7", "Config wires development mode (DPanic panics) exactly under Config.Development", 1)
@@ -1363,5 +1365,70 @@ func c6StdBridge(c *Ctx, rule string, lv map[string]int64) {
 	}
 	if nDecided < 15 {
 		c.Bad(rule, "std-log bridge", "count", token.NoPos, "expected NewStdLog plus 2 constructors x 10 levels, decided %d", nDecided)
+	}
+}
+
+// c6FreshEntryCarriesEntry: CheckedEntry.AddCore and CheckedEntry.After explored with a nil receiver (no core accepted
+// so far): on every path the checked entry handed back has its Entry set to the entry passed in. With a non-nil
+// receiver the Entry already there is left alone.
+func c6FreshEntryCarriesEntry(c *Ctx, rule string) {
+	for _, m := range []string{"AddCore", "After"} {
+		fn := c.Method(CorePath, "CheckedEntry", m)
+		if !c.Anchor(rule, "zapcore.CheckedEntry."+m, fn != nil && len(fn.Params) >= 2) {
+			continue
+		}
+		recv, ent := fn.Params[0], fn.Params[1]
+		for _, isNil := range []bool{true, false} {
+			nilRecv := isNil
+			var bad []string
+			seqs, trunc := ConcPaths(fn, ConcCfg{
+				Init: func(st *ConcState) { st.SetNil(recv, nilRecv) },
+				Event: func(in ssa.Instruction, st *ConcState) string {
+					switch x := in.(type) {
+					case *ssa.Store:
+						if fa, ok := x.Addr.(*ssa.FieldAddr); ok && fieldName(fa.X.Type(), fa.Field) == "Entry" && !nilRecv {
+							return "stores-entry"
+						}
+					case *ssa.Return:
+						if len(x.Results) != 1 || len(st.cfg.stackDepth()) != 0 {
+							return ""
+						}
+						if !nilRecv {
+							return "ret"
+						}
+						_, _, v := st.FieldOf(x.Results[0], "Entry")
+						for k := 0; v != nil && k < 12; k++ {
+							nx := st.Step(v)
+							if nx == nil {
+								break
+							}
+							v = nx
+						}
+						ok := v == ssa.Value(ent)
+						if ld, isLd := v.(*ssa.UnOp); !ok && isLd {
+							// the parameter spilled into a local and loaded back
+							if a, isA := ld.X.(*ssa.Alloc); isA && a.Comment == ent.Name() {
+								ok = true
+							}
+						}
+						if ok {
+							return "ret-with-entry"
+						}
+						return "ret-without-entry"
+					}
+					return ""
+				},
+			})
+			for _, sq := range seqs {
+				if nilRecv && !strings.HasSuffix(sq, "ret-with-entry") || !nilRecv && strings.Contains(sq, "stores-entry") {
+					bad = append(bad, sq)
+				}
+			}
+			slot := "fresh-entry-carries-entry"
+			if !nilRecv {
+				slot = "existing-entry-kept"
+			}
+			c.Check(!trunc && len(seqs) > 0 && len(bad) == 0, rule, fn.String(), slot, fn.Pos(), "%s explored with a %s receiver: %s (offending: %v)", m, map[bool]string{true: "nil", false: "non-nil"}[nilRecv], map[bool]string{true: "the checked entry handed back has Entry = the entry passed in on every path", false: "the Entry already recorded is not overwritten"}[nilRecv], bad)
+		}
 	}
 }
